@@ -38,7 +38,8 @@ def run(tier, seed, replay=None):
     bad, tstats = vlib.run_trace("Trace_C16.tla", "Trace_C16.cfg", events, "C16", shards=1, timeout=2400)
     # implementation model TypeSpaceImpl (identifier allocation, name_to_id, ref_to_id): design check,
     # then every recorded call of the real TypeSpace validated as a step of the model (Trace_TS)
-    _, ts_design, _ = vlib.run_mc("MC_TypeSpace.tla", "TypeSpace.cfg", "TypeSpace", workers=6, timeout=900)
+    _, ts_design, _ = vlib.run_mc("MC_TypeSpace.tla", "TypeSpace_thorough.cfg" if tier == "thorough" else "TypeSpace.cfg",
+                                   "TypeSpace", workers=6, timeout=1500)
     ts_events = vlib.read_ndjson(epath + ".ts")
     ts_bad, ts_stats = vlib.run_trace("Trace_TS.tla", "Trace_TS.cfg", ts_events, "C16.TS", shards=14, timeout=2400)
     os.remove(epath + ".ts")
